@@ -9,7 +9,7 @@ package lexer
 //@ globalinv keywords m: m != nil && forall(k, Str, has(m, k) == isKeyword(k)) && forall(k, Str, has(m, k) ==> m[k] == keywordType(k))
 
 // every token handed to the parser carries a canonical literal (C16)
-//@ cellinv E_S_token_Token t: canon(t.Literal)
+//@ cellinv E_S_token_Token t: canon(t.Literal) && !isArr(t.Literal) && !isObj(t.Literal)
 
 //@ func (s *Scanner) identifier [C09,C08,C18]
 //@ requires [scanner] s != nil && 0 <= s.start && s.start < s.current && s.current <= len(s.source)
@@ -67,7 +67,7 @@ package lexer
 //@ ensures [token] q < len(s.source) ==> len(s.tokens) == old(len(s.tokens))+1 && forall(k, 0, old(len(s.tokens)), s.tokens[k] == old(s.tokens[k])) && s.tokens[old(len(s.tokens))].Type == token.STRING && s.tokens[old(len(s.tokens))].Lexeme == text(s.source, s.start, s.current) && s.tokens[old(len(s.tokens))].Line == s.line && s.tokens[old(len(s.tokens))].Literal == mkStr(text(s.source, s.start+1, q)) && utils.HadError == old(utils.HadError) && stderrN == old(stderrN)
 //@ ensures [unterminated] q >= len(s.source) ==> s.tokens == old(s.tokens) && utils.HadError && stderrN == old(stderrN)+1 && reportLine(stderr[old(stderrN)]) == s.line
 
-//@ func (s *Scanner) multilineComment [C09,C08]
+//@ func (s *Scanner) multilineComment [C09,C08,C18]
 //@ requires [scanner] s != nil && 0 <= s.start && s.start+2 == s.current && s.current <= len(s.source)
 //@ let cq = findStarSlash(s.source, old(s.start)+2)
 //@ loop 1:
@@ -146,4 +146,4 @@ package lexer
 //@ requires [scanner] s != nil && 0 <= s.start && s.start <= s.current && s.current <= len(s.source)
 //@ func (s *Scanner) AddToken [C07,C16]
 //@ inline
-//@ requires [scanner] s != nil && 0 <= s.start && s.start <= s.current && s.current <= len(s.source) && canon(literal)
+//@ requires [scanner] s != nil && 0 <= s.start && s.start <= s.current && s.current <= len(s.source) && canon(literal) && !isArr(literal) && !isObj(literal)
